@@ -17,6 +17,7 @@ class Gen:
         self.nlabel = 0
         self.script_len = 0
         self.depth = 0
+        self.ql = opts.get("lreg")   # a Q register written ONLY by load/add, never by set
 
     # ---- emission
     def e(self, *t):
@@ -65,7 +66,7 @@ class Gen:
             self.e("set", ("R", 1), k)
             self.e("set", ("R", 2), self.rng.randint(-3, 9))
             self.e("store", ("R", 2), 0, ("R", 1))
-        if self.o.get("load"):
+        if self.o.get("load") or self.ql:
             self.e("set", ("R", 0), self.nc + 1)
             self.e("array", ("R", 0), 1)
             ids = list(range(self.nc + 1))
@@ -74,6 +75,8 @@ class Gen:
                 self.e("set", ("R", 1), k)
                 self.e("set", ("R", 2), v)
                 self.e("store", ("R", 2), 1, ("R", 1))
+        if self.ql:
+            self.lwrite()
         for k in range(3, 6):
             self.e("set", ("R", k), self.rng.randint(0, 3))
         for k in range(4):
@@ -122,6 +125,31 @@ class Gen:
             self.e("set", ("R", 1), k)
             self.e("load", rng.choice([self.qa, self.qb]), 1, ("R", 1))
             self.e("g2", rng.choice(["cnot", "cphase"]), self.qa, self.qb)
+
+    def lwrite(self):
+        """(re)write the load/add-only Q register with a valid qubit id, never by `set`"""
+        rng = self.rng
+        if rng.random() < 0.6:
+            self.e("set", ("R", 1), rng.randint(0, self.nc))
+            self.e("load", self.ql, 1, ("R", 1))
+        else:
+            v = rng.randint(0, self.nc)
+            a = rng.randint(-2, 3)
+            self.e("set", ("R", 1), a)
+            self.e("set", ("R", 2), v - a)
+            self.e("arith", False, self.ql, ("R", 1), ("R", 2))
+
+    def luse(self):
+        """single-qubit gate / measurement through the load/add-written register, which keeps its
+        value across the gates in between (no reload)"""
+        rng = self.rng
+        if rng.random() < 0.25:
+            self.lwrite()
+        if rng.random() < 0.8:
+            self.single(self.ql)
+        else:
+            self.e("meas", self.ql, ("M", rng.randint(0, 3)))
+            self.script_len += 1
 
     def classical(self):
         rng = self.rng
@@ -207,6 +235,8 @@ class Gen:
             w += [("cond", 2), ("loop", 2)]
         if self.o.get("load"):
             w += [("gate_load", 4)]
+        if self.ql:
+            w += [("luse", 5)]
         tot = sum(x[1] for x in w)
         r = rng.uniform(0, tot)
         for name, wt in w:
@@ -222,11 +252,19 @@ def gen_program(rng, opts=None, size=None):
     opts = dict(opts or {})
     nc = opts.get("ncarbons") or rng.randint(1, 3)
     pools = [(("Q", 0), ("Q", 1))] * 4 + [(("Q", 1), ("Q", 0)), (("Q", 1), ("Q", 2)), (("Q", 3), ("Q", 0)), (("Q", 2), ("Q", 5))]
-    g = Gen(rng, nc, rng.choice(pools), opts)
+    pool = rng.choice(pools)
+    if opts.get("lreg") is True:
+        # the load/add-written register, mostly numbered below every untouched Q register
+        pool, opts["lreg"] = rng.choice([((("Q", 0), ("Q", 1)), ("Q", 2)), ((("Q", 1), ("Q", 2)), ("Q", 0)),
+                                         ((("Q", 0), ("Q", 2)), ("Q", 1)), ((("Q", 1), ("Q", 0)), ("Q", 2)),
+                                         ((("Q", 0), ("Q", 1)), ("Q", 5))])
+    g = Gen(rng, nc, pool, opts)
     g.prologue()
     n = size if size is not None else rng.randint(2, 7)
     for _ in range(n):
         g.stmt()
+    if g.ql and rng.random() < 0.7:
+        g.luse()   # the register is still live after the two-qubit gates of the body
     tail = rng.random()
     if tail < 0.35:
         g.depth = 1
@@ -238,7 +276,7 @@ def gen_program(rng, opts=None, size=None):
         g.e("ret_arr", 0)
         g.e("ret_reg", ("M", 0))
     prog = g.resolve()
-    return prog, dict(ncarbons=nc, script_len=g.script_len, pool=[g.qa, g.qb])
+    return prog, dict(ncarbons=nc, script_len=g.script_len, pool=[g.qa, g.qb], lreg=g.ql)
 
 
 def mentioned_regs(prog):
